@@ -1,4 +1,4 @@
-\* C44 leg A thorough: 2 shards, worlds of <= 2 series, values {1,2}, ops sum/max, depth 2
+\* C44 leg A thorough: 2 shards, worlds of <= 2 series, values {1,2}, ops sum/max, depth 2, all chains of depth 3
 SPECIFICATION Spec
 CONSTANTS NShards = 2
           MaxSeries = 2
@@ -6,5 +6,6 @@ CONSTANTS NShards = 2
           Ops = {"sum", "max"}
           WithLrep = TRUE
           Depth2 = TRUE
+          Depth3 = "all"
 INVARIANT C44_ShardedEqualsUnsharded
 CHECK_DEADLOCK FALSE
